@@ -192,6 +192,12 @@ func (c *checkSchema) checkLinksOfNode(node schema.Node, ss map[string]schema.Ty
 	}
 
 	c.collectAllowedJsonTypes(node, ss)
+	if _, ok := node.(*schema.MixedNode); ok {
+		// The root of a rule-set of the "or" rule ({type: "@T", nullable: true})
+		// has no EXAMPLE of its own - it borrows the one the "or" rule is written
+		// on, which is checked against all alternatives at that node.
+		return
+	}
 	if _, ok := c.allowedJsonTypes[node.Type()]; !ok {
 		panic(errors.ErrIncorrectUserType)
 	}
